@@ -113,12 +113,13 @@ def observe(c):
         gsp["vol"] = scale(gsp["vol"])
     geo["seed"] = rng.randrange(2 ** 31)
     n0 = len(CAPPED)
+    e3 = engine_build.engine(kind)         # an object whose first set-up is the sibling's
     try:
-        _drive(e1, trajgen.build_script(strengths, geo), max_iter=300)
+        _drive(e3, trajgen.build_script(strengths, geo), max_iter=300)
     except Exception:
         pass
     del CAPPED[n0:]
-    runs.append(["after_geometric_sibling_on_the_same_object", _drive(e1, script)[1], True])
+    runs.append(["after_geometric_sibling_on_the_same_object", _drive(e3, script)[1], True])
     # the same run asked for through simulate(): every script property handed over as a keyword argument (the reference completed
     # within the harness's cap, so this loop ends too)
     if not CAPPED:
